@@ -15,6 +15,7 @@ namespace sim {
 struct ZoneSpec {
   std::string key;        // logical name ("A"); full name is "sim/<salt>/A" unless literal
   bool literal = false;   // use key verbatim (UTC, UTC0, Fixed/UTC+..)
+  bool file_prefix = false;  // the name carries a "file:" prefix (a different cache key, and a different name for the factory)
   std::string base;       // recipe of the healthy bytes
   std::string state = "healthy";  // healthy | absent | badmagic | trunc | eio
   int null_times = 0;     // transient: first N factory calls give no source
